@@ -55,17 +55,33 @@ func init() {
 		name := args[0].(string)
 		lo, hi := asInt64(args[1]), asInt64(args[2])
 		v := ex.input(name, SBV, 64)
-		ex.Assume(Cmp(OSle, BV(uint64(lo), 64), v))
-		ex.Assume(Cmp(OSle, v, BV(uint64(hi), 64)))
-		return int(ex.Split(v))
+		if ex.concrete != nil {
+			c := sext64(v.K, 64)
+			if c < lo || c > hi {
+				panic(pathEnd{"assume false (concrete)"})
+			}
+			return int(c)
+		}
+		if lo > hi {
+			panic(pathEnd{"empty range"})
+		}
+		return int(ex.SplitFresh(v, lo, hi))
 	})
 	reg("Choice", func(fr *frame, args []value) value {
 		name := args[0].(string)
 		n := asInt64(args[1])
 		v := ex.input(name, SBV, 64)
-		ex.Assume(Cmp(OSle, BV(0, 64), v))
-		ex.Assume(Cmp(OSlt, v, BV(uint64(n), 64)))
-		return int(ex.Split(v))
+		if ex.concrete != nil {
+			c := sext64(v.K, 64)
+			if c < 0 || c >= n {
+				panic(pathEnd{"assume false (concrete)"})
+			}
+			return int(c)
+		}
+		if n <= 0 {
+			panic(pathEnd{"empty range"})
+		}
+		return int(ex.SplitFresh(v, 0, n-1))
 	})
 	reg("Assume", func(fr *frame, args []value) value {
 		ex.stats.Assumes[fr.callerPos()]++
@@ -87,6 +103,12 @@ func init() {
 	reg("Split", func(fr *frame, args []value) value { return conc(args[0]) })
 	reg("SplitU", func(fr *frame, args []value) value { return conc(args[0]) })
 	reg("SplitInt", func(fr *frame, args []value) value { return conc(args[0]) })
+	reg("IteU64", func(fr *frame, args []value) value {
+		return mkVal(types.Uint64, Ite(termOf(args[0]), termOf(args[1]), termOf(args[2])))
+	})
+	reg("IteI64", func(fr *frame, args []value) value {
+		return mkVal(types.Int64, Ite(termOf(args[0]), termOf(args[1]), termOf(args[2])))
+	})
 	reg("Stop", func(fr *frame, args []value) value {
 		ex.Cover("stop:"+args[0].(string), BoolT(true))
 		panic(pathEnd{"stop: " + args[0].(string)})
